@@ -611,6 +611,27 @@ theorem RunL.while_shape {c : Expr} {body : Stmt} {sh : List Kind} (hsh : Flow.s
     (fun f a b _ ha _ hab => ⟨trivial, shape_sound I oracle body sh hsh f a b ha hab⟩) f s t trivial hs he
   exact ⟨n, hw, hr, hk⟩
 
+/-- a `forIn` whose body, run from a state satisfying `Inv` with the loop variable bound to `v`, performs `g v` -/
+theorem RunL.forIn_gen {x : String} {e : Expr} {body : Stmt} (Inv : State Val → Prop) (g : Val → List Kind)
+    (hbody : ∀ v s t, Inv s → s.ret = none → RunL I oracle (flat body) (s.setVar x v) t →
+      Inv t ∧ t.ret = none ∧ t.kinds = s.kinds ++ g v)
+    {s t : State Val} (hInv : Inv s) (hs : s.ret = none) (h : RunL I oracle [.forIn x e body] s t) :
+    Inv t ∧ t.ret = none ∧ t.kinds = s.kinds ++ (I.elems (evalE I s.env e)).flatMap g := by
+  obtain ⟨f, he⟩ := RunL.single I oracle h
+  obtain ⟨f, rfl⟩ := exec_pos I oracle he
+  exact forIn_kinds I oracle Inv g
+    (fun v a b hi ha hab => hbody v a b hi ha (runL_of_exec I oracle body f _ b hab)) hInv hs he
+
+/-- a quiet block followed by an assignment: the state after it -/
+theorem RunL.pre_assign {pre0 : List Stmt} {x : String} {e : Expr} (hq : shapeL pre0 = some [])
+    {s t : State Val} (hs : s.ret = none) (h : RunL I oracle (pre0 ++ [.assign x e]) s t) :
+    ∃ sP, RunL I oracle pre0 s sP ∧ t = sP.setVar x (evalE I sP.env e) ∧ t.ret = none ∧ t.kinds = s.kinds := by
+  obtain ⟨sP, h0, h1⟩ := RunL.of_append I oracle h
+  obtain ⟨hrP, hkP⟩ := RunL.shape I oracle hq hs h0
+  obtain ⟨f, he⟩ := RunL.single I oracle h1
+  have ht := exec_assign_inv I oracle hrP he
+  exact ⟨sP, h0, ht, by rw [ht]; exact hrP, by rw [ht]; simpa using hkP⟩
+
 theorem RunL.ret_kinds {e : Expr} {s t : State Val} (h : RunL I oracle [.ret e] s t) : t.kinds = s.kinds := by
   obtain ⟨f, he⟩ := RunL.single I oracle h
   exact exec_ret_kinds I oracle he
@@ -650,6 +671,36 @@ theorem replicate_rel_prefix_unique : ∀ (a b : Nat) (X Y : List Kind), X.head?
     simp only [List.replicate_succ, List.cons_append, List.cons.injEq, true_and] at h
     obtain ⟨h1, h2⟩ := replicate_rel_prefix_unique a b X Y hX hY h
     exact ⟨by rw [h1], h2⟩
+
+theorem flatMap_replicate_eq (vs : List Val) (cnt : Val → Nat) (k : Kind) :
+    vs.flatMap (fun v => List.replicate (cnt v) k) = List.replicate ((vs.map cnt).sum) k := by
+  induction vs with
+  | nil => rfl
+  | cons v vs ih => simp [List.flatMap_cons, ih, List.replicate_append_replicate]
+
+/-- three blocks `rel* sel+ rel*` are determined by the list -/
+theorem three_blocks_unique {a b c a' b' c' : Nat} (hb : 0 < b)
+    (h : List.replicate a Kind.rel ++ List.replicate b Kind.sel ++ List.replicate c Kind.rel
+      = List.replicate a' Kind.rel ++ List.replicate b' Kind.sel ++ List.replicate c' Kind.rel) :
+    a = a' ∧ b = b' ∧ c = c' := by
+  have hbb : b = b' := by
+    have := congrArg (List.count Kind.sel) h
+    simpa [List.count_append, List.count_replicate] using this
+  subst hbb
+  rw [List.append_assoc, List.append_assoc] at h
+  have hX : (List.replicate b Kind.sel ++ List.replicate c Kind.rel).head? ≠ some Kind.rel := by
+    cases b with
+    | zero => omega
+    | succ b => simp [List.replicate_succ]
+  have hY : (List.replicate b Kind.sel ++ List.replicate c' Kind.rel).head? ≠ some Kind.rel := by
+    cases b with
+    | zero => omega
+    | succ b => simp [List.replicate_succ]
+  obtain ⟨h1, h2⟩ := replicate_rel_prefix_unique a a' _ _ hX hY h
+  have h3 := List.append_cancel_left h2
+  have := congrArg List.length h3
+  simp at this
+  exact ⟨h1, rfl, this⟩
 
 theorem length_flatten_replicate (n : Nat) (sh : List Kind) : ((List.replicate n sh).flatten).length = n * sh.length := by
   induction n with
